@@ -12,7 +12,8 @@ FINISH = dict(level="proof", rule=(
     "faults: none, clone (bad cgroup descriptor), id-map write (overlapping ranges), setgid (unmapped gid), dup3 (closed "
     "descriptor), mount k (source vanished), pivot root (missing), chdir (missing), rlimit k (above the hard limit without "
     "privilege), seccomp (invalid program), execve (missing executable), failing callback — x callback {none, ok, failing} x "
-    "user namespace {no, yes} x 2 repetitions.  Non-trivial: a launch with an induced fault; distinct = distinct (fault, "
+    "user namespace {no, yes} x 2 repetitions; container launch histories, also over the options of the launch request (cgroup "
+    "descriptor good / bad, executable by descriptor, filter, limits, descriptor list) with the callback before / after exec.  Non-trivial: a launch with an induced fault; distinct = distinct (fault, "
     "callback, namespace)."))
 
 HDR = "From Coq Require Import List.\nImport ListNotations.\nFrom GS Require Import Launch.SyncLts Launch.EvalSync.\n"
@@ -56,6 +57,26 @@ def run(c):
                   {"sync_after": False, "cb": "fail", "precancel": True}, {"sync_after": False, "cb": "fail", "precancel": False},
                   {"sync_after": False, "cb": "ok", "precancel": True}, {"sync_after": True, "cb": "fail", "precancel": False}, {"sync_after": False, "cb": "none", "precancel": False}]
         cases.append({"id": len(cases), "fault": "container_hist", "launches": ls})
+    # the same histories over the further options of a container launch request: child cloned into a cgroup v2 directory given by
+    # descriptor / a descriptor that is no cgroup directory (the clone step fails), executable by descriptor, filter, resource
+    # limits, longer descriptor list; the callback may wait before it looks, so that a target that was not held back has run
+    r7c = c.rng("container-configs")
+    def opts(cg=None):
+        return {"cgroup": cg if cg is not None else r7c.choice(["none", "dir", "dir", "bad"]), "exec_fd": r7c.random() < 0.3, "seccomp": r7c.random() < 0.3,
+                "rlimits": r7c.random() < 0.3, "files_n": r7c.choice([3, 3, 4, 9, 17]), "cb_delay_ms": r7c.choice([0, 0, 20, 60])}
+    for h in range(3 if c.quick() else 20):
+        ls = []
+        if h == 0:
+            # every (callback position, callback, cgroup option) once, the other options drawn
+            for cg in ("dir", "bad", "none"):
+                for sa in (False, True):
+                    for cb in ("ok", "fail", "none"):
+                        ls.append(dict({"sync_after": sa, "cb": cb, "precancel": False}, **opts(cg)))
+            r7c.shuffle(ls)
+        else:
+            for _ in range(r7c.randint(5, 10)):
+                ls.append(dict({"sync_after": r7c.random() < 0.4, "cb": r7c.choice(["none", "ok", "ok", "fail"]), "precancel": r7c.random() < 0.15}, **opts()))
+        cases.append({"id": len(cases), "fault": "container_hist", "launches": ls})
     cases.append({"id": len(cases), "fault": "ptrace_runner"})
     # the launching process is killed while the callback runs (theorem C07_launcher_death)
     for k in range(4 if c.quick() else 24):
@@ -69,10 +90,22 @@ def run(c):
         fault = x["fault"]
         if fault == "container_hist":
             for li, (l, lo) in enumerate(zip(x["launches"], o["launches"])):
-                c.count(("container", li, json.dumps(l), json.dumps(x["launches"][:li])), nontrivial=l["cb"] != "none", klass="container:%s:%s" % ("after" if l["sync_after"] else "before", l["cb"]))
+                cg = l.get("cgroup", "none")
+                if cg == "dir" and lo.get("cgroup_unavailable"):
+                    c.cov["cgroup_v2_unavailable"] = lo["cgroup_unavailable"]
+                    cg = "unavailable"
+                used = [k for k in ("exec_fd", "seccomp", "rlimits") if l.get(k)] + (["files"] if l.get("files_n", 3) > 3 else [])
+                c.count(("container", li, json.dumps(l), json.dumps(x["launches"][:li])), nontrivial=l["cb"] != "none" or cg == "bad",
+                        klass="container:%s:%s" % ("after" if l["sync_after"] else "before", l["cb"]) + (":cgroup-" + cg if "cgroup" in l else ""))
                 canon = lambda what, **kw: dict({"kind": "sync-gate", "what": what, "runner": "container", "sync_after_exec": l["sync_after"], "callback": l["cb"],
-                                                 "context_cancelled_before": l["precancel"]}, **kw)
-                rep_ = {"history": x["launches"][:li + 1], "observed": o["launches"][:li + 1]}
+                                                 "context_cancelled_before": l["precancel"]},
+                                                **dict(kw, **({"cgroup": cg, "options": "+".join(used) or "-"} if "cgroup" in l else {})))
+                rep_ = {"history": x["launches"][:li + 1], "observed": o["launches"][:li + 1],
+                        "expected_of_last_launch": ("callback after exec: pid = the container init" if l["sync_after"] else
+                                                    "callback strictly before the target's first instruction (no marker, not the target's image), pid = host-side pid of the "
+                                                    "blocked child (NSpid in two namespaces, inside not 1; child of the container init; launcher's image; member of the "
+                                                    "cgroup it was cloned into)") + "; a refusing callback or a failing step (bad cgroup descriptor: clone) gives status 8 "
+                                                   "naming the step, the target never runs, no process of the launch is left; otherwise status 1 and the target ran"}
                 if l["cb"] != "none" and lo["calls"] > 1:
                     c.finding_or_violation(canon("the callback was invoked more than once"), rep_)
                 if not l["sync_after"]:
@@ -89,8 +122,42 @@ def run(c):
                 else:
                     if lo["calls"] and not lo.get("pid_is_init"):
                         c.finding_or_violation(canon("with the callback after exec the pid is not the container init"), rep_)
+                if not l["sync_after"] and lo["calls"]:
+                    # the pid designates that very process in the caller's pid namespace: a process of the container (visible in two pid
+                    # namespaces, inside not as number 1), child of the container init, still in the launcher's image, alive and blocked,
+                    # and - when the launch clones it into a cgroup - the member of that cgroup
+                    ns = lo.get("nspid") or []
+                    wrong = {}
+                    if len(ns) < 2 or ns[-1] == 1:
+                        wrong["nspid"] = ns
+                    if not lo.get("exe_is_launcher"):
+                        wrong["exe_is_launcher"] = lo.get("exe_is_launcher")
+                    if not lo.get("ppid_is_init"):
+                        wrong["ppid_is_init"] = lo.get("ppid_is_init")
+                    if lo.get("state") not in ("S", "R", "D"):
+                        wrong["state"] = lo.get("state")
+                    if cg == "dir" and not lo.get("pid_in_cgroup"):
+                        wrong["pid_in_cgroup"] = False
+                        wrong["cgroup_members_at_callback"] = lo.get("cgroup_members_at_callback")
+                    if wrong:
+                        c.finding_or_violation(canon("the pid given to the callback does not designate the blocked child of the container init", seen=wrong), rep_)
+                if cg == "bad":
+                    # a launch step (the clone into the cgroup) fails: never runs, callback not reached, error names the step
+                    if lo["status"] != 8:
+                        c.finding_or_violation(canon("a launch whose clone step fails did not end as a launch error", status=lo["status"]), rep_)
+                    elif "clone" not in lo["error"]:
+                        c.finding_or_violation(canon("the error does not name the failing step", expected="clone", error=lo["error"][:80]), rep_)
+                    if lo["target_ran"]:
+                        c.finding_or_violation(canon("the target ran although a launch step failed"), rep_)
+                    if lo["calls"]:
+                        c.finding_or_violation(canon("the callback was invoked although the clone step failed"), rep_)
+                if cg == "dir" and lo["status"] == 8 and lo.get("cgroup_members_after"):
+                    c.finding_or_violation(canon("a process of a failed launch is still a member of its cgroup when the call returns",
+                                                 members=lo["cgroup_members_after"], error=lo["error"][:60]), rep_)
                 if l["cb"] == "fail" and lo["calls"] and lo["status"] != 8:
                     c.finding_or_violation(canon("a refusing callback does not make the launch fail", status=lo["status"]), rep_)
+                if cg == "bad":
+                    continue
                 if l["cb"] != "fail" and not l["precancel"] and (lo["status"] != 1 or not lo["target_ran"]):
                     c.finding_or_violation(canon("a correct launch failed or the target did not run", status=lo["status"], error=lo["error"][:60]), rep_)
             if o["ping_err"] != "<nil>":
